@@ -469,6 +469,56 @@ func c20Long(c *work.Ctx) {
 			}
 		}
 	}
+	// (1b) index selectors written with many digits: the number a path text names is its decimal value. An index
+	// the library cannot represent may be refused by CreatePath; an accepted one selects what the same value written
+	// plainly selects (nothing, when it is beyond the array) — never another element.
+	{
+		type hv struct {
+			text  string
+			plain string // the same value (or, beyond every array, the first index past the end) written plainly
+			fits  bool   // the value fits an int64
+		}
+		huge := []hv{
+			{"0000000000000000000000001", "1", true}, {"00000000000000000000000000000000", "0", true},
+			{"9223372036854775807", "3", true}, {"9223372036854775808", "3", false}, {"18446744073709551615", "3", false},
+			{"18446744073709551616", "3", false}, {"18446744073709551617", "3", false}, {"18446744073709551618", "3", false},
+			{"36893488147419103233", "3", false}, {"100000000000000000000", "3", false}, {"4294967296", "3", true}, {"4294967297", "3", true},
+			{"340282366920938463463374607431768211457", "3", false},
+		}
+		hdocs := []struct{ pre, post, doc string }{
+			{"$[", "]", `[10,20,30]`}, {"$.a[", "]", `{"a":[10,20,30]}`}, {"$.a[", "].b", `{"a":[{"b":1},{"b":2},{"b":3}]}`}, {"$[1][", "]", `[[7],[10,20,30]]`},
+		}
+		for _, h := range huge {
+			for _, hd := range hdocs {
+				ps := hd.pre + h.text + hd.post
+				id := "long index: " + ps + " on " + hd.doc
+				if !c.BeginS(id) {
+					continue
+				}
+				var path *json.Path
+				var err error
+				if pn, msg := util.Safe(func() { path, err = json.CreatePath(ps) }); pn {
+					c20V(c, "panic : CreatePath : index of many digits", id, msg)
+					c.EndCase()
+					continue
+				}
+				c.Count("long_extractions", 1)
+				switch {
+				case err != nil && h.fits:
+					c20V(c, "path rejects-documented : index of many digits that fits 64 bits", id, err.Error())
+				case err == nil:
+					ref, _ := json.CreatePath(hd.pre + h.plain + hd.post)
+					got, want := c20Extract(path, []byte(hd.doc)), c20Extract(ref, []byte(hd.doc))
+					if got.String() != want.String() {
+						c20V(c, "Extract : index of many digits : selects another element than its value names", id,
+							fmt.Sprintf("%s gives %s ; the same value written as %s gives %s", ps, got, h.plain, want))
+					}
+				}
+				c.Outcome("done")
+				c.EndCase()
+			}
+		}
+	}
 	// (2) truncations: the library's verdicts on documents it only partly reads are listed under C20 already
 	// (c20.paths); here only "it returns" is judged, which is C06's subject
 	if c.Prop != "C06" {
